@@ -6,6 +6,7 @@ import (
 	"math"
 	"time"
 
+	"github.com/btcsuite/btcd/address/v2"
 	"github.com/btcsuite/btcd/blockchain"
 	"github.com/btcsuite/btcd/btcutil/v2"
 	"github.com/btcsuite/btcd/chaincfg/v2"
@@ -15,18 +16,26 @@ import (
 )
 
 const (
-	fundValue   = int64(10_000_000)
-	blockVer    = int32(0x20000000)
-	seqFinal    = wire.MaxTxInSequenceNum
-	seqSignalRB = uint32(0xfffffffd)
+	retargetBlocks = 20
+	seqNonFinal    = uint32(0xfffffffe) // lock time effective, no BIP125 signal
+	fundValue      = int64(10_000_000)
+	blockVer       = int32(0x20000000)
+	seqFinal       = wire.MaxTxInSequenceNum
+	seqSignalRB    = uint32(0xfffffffd)
 )
 
 // NewParams returns a private copy of the regression test parameters with the
 // given coinbase maturity.  Deployment starters/enders keep a pointer to the
 // chain they were synchronised with, so every chain instance needs its own.
-func NewParams(maturity int) *chaincfg.Params {
+func NewParams(u *Universe) *chaincfg.Params {
 	p := chaincfg.RegressionNetParams
-	p.CoinbaseMaturity = uint16(maturity)
+	p.CoinbaseMaturity = uint16(u.Maturity)
+	if u.Retarget {
+		// real retargeting every 20 blocks; ReduceMinDifficulty (the testnet
+		// twenty-minute rule) is already set for this network
+		p.PoWNoRetargeting = false
+		p.TargetTimespan = retargetBlocks * p.TargetTimePerBlock
+	}
 	for i := range p.Deployments {
 		p.Deployments[i].DeploymentStarter = chaincfg.NewMedianTimeDeploymentStarter(time.Time{})
 		p.Deployments[i].DeploymentEnder = chaincfg.NewMedianTimeDeploymentEnder(time.Time{})
@@ -41,7 +50,10 @@ func NewParams(maturity int) *chaincfg.Params {
 // and is spent by the signature script OP_1 (OP_2 for the "badscript" class).
 // The OP_CHECKMULTISIGs sit in a branch that is never executed; each counts 20
 // legacy signature operations (cost 80) for the transaction creating the output.
-func legacyScript(tag []byte, pad, sigops int) []byte {
+func legacyScript(tag []byte, pad, sigops int) []byte { return legacyScript2(tag, pad, sigops, 0) }
+
+// legacyScript2 additionally places n never-executed OP_CHECKSIG (1 legacy sigop, cost 4 each).
+func legacyScript2(tag []byte, pad, sigops, checksigs int) []byte {
 	var s []byte
 	if len(tag) > 0 {
 		s = append(s, byte(len(tag)))
@@ -51,21 +63,67 @@ func legacyScript(tag []byte, pad, sigops int) []byte {
 	for i := 0; i < pad; i++ {
 		s = append(s, txscript.OP_NOP)
 	}
-	if sigops > 0 {
+	if sigops > 0 || checksigs > 0 {
 		s = append(s, txscript.OP_0, txscript.OP_IF)
 		for i := 0; i < sigops; i++ {
 			s = append(s, txscript.OP_CHECKMULTISIG)
+		}
+		for i := 0; i < checksigs; i++ {
+			s = append(s, txscript.OP_CHECKSIG)
 		}
 		s = append(s, txscript.OP_ENDIF)
 	}
 	return append(s, txscript.OP_1, txscript.OP_EQUAL)
 }
 
-// witnessScript for a P2WSH coin: <tag> OP_DROP OP_1
-func witnessScript(tag []byte) []byte {
+// witnessScript for a P2WSH coin: <tag> OP_DROP [OP_0 OP_IF OP_CHECKSIG*n OP_ENDIF] OP_1
+// (each OP_CHECKSIG costs the spender one unit of sigop cost).
+func witnessScript(tag []byte, checksigs int) []byte {
 	s := []byte{byte(len(tag))}
 	s = append(s, tag...)
-	return append(s, txscript.OP_DROP, txscript.OP_1)
+	s = append(s, txscript.OP_DROP)
+	if checksigs > 0 {
+		s = append(s, txscript.OP_0, txscript.OP_IF)
+		for i := 0; i < checksigs; i++ {
+			s = append(s, txscript.OP_CHECKSIG)
+		}
+		s = append(s, txscript.OP_ENDIF)
+	}
+	return append(s, txscript.OP_1)
+}
+
+// redeemScript of the standard (P2SH) outputs: <tag> OP_DROP OP_DROP OP_1, spent by
+// the signature script <padding push> <redeem script>.
+func redeemScript(tag []byte) []byte {
+	s := []byte{byte(len(tag))}
+	s = append(s, tag...)
+	return append(s, txscript.OP_DROP, txscript.OP_DROP, txscript.OP_1)
+}
+
+func p2sh(rs []byte) []byte {
+	return append(append([]byte{txscript.OP_HASH160, txscript.OP_DATA_20}, address.Hash160(rs)...), txscript.OP_EQUAL)
+}
+
+func pushData(b []byte) []byte {
+	s, err := txscript.NewScriptBuilder().AddData(b).Script()
+	if err != nil {
+		panic(err)
+	}
+	return s
+}
+
+type coinKind int
+
+const (
+	kLegacy coinKind = iota // custom script, spent by OP_1
+	kBare                   // OP_1, spent by the empty signature script (output of a "small" transaction)
+	kWit                    // P2WSH
+	kP2SH                   // standard universe
+)
+
+type coinInfo struct {
+	kind   coinKind
+	script []byte // witness or redeem script
 }
 
 func p2wsh(ws []byte) []byte {
@@ -76,25 +134,27 @@ func p2wsh(ws []byte) []byte {
 // Concrete holds the real objects of one universe.  They depend on the wall
 // clock (block timestamps) and are built once per process.
 type Concrete struct {
-	U         *Universe
-	Params    *chaincfg.Params // template; each Env copies it again
-	T0        time.Time
-	Base      []*btcutil.Block // blocks 1..H0 on top of genesis
-	H0        int32
-	FundTx    *btcutil.Tx
-	SlotCB    []*wire.MsgTx // coinbase of slot b at index b-1
-	Txs       []*btcutil.Tx // tx t at index t-1
-	ByHash    map[chainhash.Hash]int
-	Ops       []Outpoint // the outpoint universe
-	OpReal    map[Outpoint]wire.OutPoint
-	OpAbs     map[wire.OutPoint]Outpoint
-	OpValue   map[Outpoint]int64
-	witScript map[Outpoint][]byte
-	VSize     []int
-	Size      []int
-	Weight    []int
-	SigCost   []int
-	slotH     []int32 // absolute height of slot b
+	U        *Universe
+	Params   *chaincfg.Params // template; each Env copies it again
+	T0       time.Time
+	Base     []*btcutil.Block // blocks 1..H0 on top of genesis
+	H0       int32
+	FundTx   *btcutil.Tx
+	SlotCB   []*wire.MsgTx // coinbase of slot b at index b-1
+	Txs      []*btcutil.Tx // tx t at index t-1
+	ByHash   map[chainhash.Hash]int
+	Ops      []Outpoint // the outpoint universe
+	OpReal   map[Outpoint]wire.OutPoint
+	OpAbs    map[wire.OutPoint]Outpoint
+	OpValue  map[Outpoint]int64
+	coin     map[Outpoint]coinInfo
+	parent   map[int]*btcutil.Tx // source id (0 fund, <0 coinbases) -> transaction, for utxo views
+	VSize    []int
+	Size     []int
+	Weight   []int
+	SigCost  []int
+	slotH    []int32 // absolute height of slot b
+	BaseBits uint32  // difficulty bits of the base chain tip
 }
 
 func (c *Concrete) SlotHeight(b int) int32 { return c.slotH[b-1] }
@@ -111,19 +171,28 @@ func solve(h *wire.BlockHeader, limit *chaincfg.Params) {
 }
 
 func coinbaseTx(height int32, tag int64, value int64) *wire.MsgTx {
+	return coinbaseTxTo(height, tag, value, legacyScript([]byte{0xcb}, 4, 0))
+}
+
+func coinbaseTxTo(height int32, tag int64, value int64, pk []byte) *wire.MsgTx {
 	script, err := txscript.NewScriptBuilder().AddInt64(int64(height)).AddInt64(tag).AddData([]byte("verif")).Script()
 	if err != nil {
 		panic(err)
 	}
 	tx := wire.NewMsgTx(1)
 	tx.AddTxIn(&wire.TxIn{PreviousOutPoint: *wire.NewOutPoint(&chainhash.Hash{}, wire.MaxPrevOutIndex), SignatureScript: script, Sequence: seqFinal})
-	tx.AddTxOut(&wire.TxOut{Value: value, PkScript: legacyScript([]byte{0xcb}, 4, 0)})
+	tx.AddTxOut(&wire.TxOut{Value: value, PkScript: pk})
 	return tx
 }
 
 // AssembleBlock builds and solves a block with the given coinbase and body on
 // top of prev.
 func AssembleBlock(params *chaincfg.Params, prev chainhash.Hash, height int32, ts time.Time, cbTx *wire.MsgTx, body []*btcutil.Tx) *btcutil.Block {
+	return AssembleBlockBits(params, params.PowLimitBits, prev, height, ts, cbTx, body)
+}
+
+// AssembleBlockBits is AssembleBlock for a chain whose required difficulty is not the minimum.
+func AssembleBlockBits(params *chaincfg.Params, bits uint32, prev chainhash.Hash, height int32, ts time.Time, cbTx *wire.MsgTx, body []*btcutil.Tx) *btcutil.Block {
 	cbCopy := cbTx.Copy()
 	txs := []*btcutil.Tx{btcutil.NewTx(cbCopy)}
 	hasWit := false
@@ -144,7 +213,7 @@ func AssembleBlock(params *chaincfg.Params, prev chainhash.Hash, height int32, t
 		cbCopy.AddTxOut(&wire.TxOut{Value: 0, PkScript: append(append([]byte{}, blockchain.WitnessMagicBytes...), commit...)})
 		txs[0] = btcutil.NewTx(cbCopy)
 	}
-	msg := &wire.MsgBlock{Header: wire.BlockHeader{Version: blockVer, PrevBlock: prev, Timestamp: ts, Bits: params.PowLimitBits}}
+	msg := &wire.MsgBlock{Header: wire.BlockHeader{Version: blockVer, PrevBlock: prev, Timestamp: ts, Bits: bits}}
 	for _, t := range txs {
 		msg.AddTransaction(t.MsgTx())
 	}
@@ -161,48 +230,73 @@ func BuildConcrete(u *Universe) (*Concrete, error) {
 	if err := u.Validate(); err != nil {
 		return nil, err
 	}
-	c := &Concrete{U: u, Params: NewParams(u.Maturity), ByHash: map[chainhash.Hash]int{},
-		OpReal: map[Outpoint]wire.OutPoint{}, OpAbs: map[wire.OutPoint]Outpoint{}, OpValue: map[Outpoint]int64{}, witScript: map[Outpoint][]byte{}}
+	c := &Concrete{U: u, Params: NewParams(u), ByHash: map[chainhash.Hash]int{},
+		OpReal: map[Outpoint]wire.OutPoint{}, OpAbs: map[wire.OutPoint]Outpoint{}, OpValue: map[Outpoint]int64{},
+		coin: map[Outpoint]coinInfo{}, parent: map[int]*btcutil.Tx{}}
 	c.T0 = time.Unix(time.Now().Add(-2*time.Hour).Unix(), 0)
 	subsidy := blockchain.CalcBlockSubsidy(1, c.Params)
 
-	// base chain: block 1 (coinbase funds F), ..., block 1+M carries F
+	// base chain: block 1 (its coinbase funds F), ..., block 1+M carries F.  A
+	// retargeting universe continues to height 2*retargetBlocks+1, one second per
+	// block, which makes the required difficulty four times the minimum.
 	c.H0 = int32(1 + u.Maturity)
+	fundAt := c.H0
+	var ref *Env // a scratch chain that tells the required bits
+	if u.Retarget {
+		c.H0 = 2*retargetBlocks + 1
+		var err error
+		if ref, err = newChainOnly(c); err != nil {
+			return nil, err
+		}
+		defer ref.Close()
+	}
 	prev := *c.Params.GenesisHash
 	var cb1 *wire.MsgTx
 	for h := int32(1); h <= c.H0; h++ {
-		cbt := coinbaseTx(h, 1000+int64(h), subsidy)
+		var cbt *wire.MsgTx
+		if h == c.H0 {
+			cbt = coinbaseTxTo(h, 1000+int64(h), subsidy, c.outScript(baseCB(), []byte{0xcb, 0xb0}, 4, TxSpec{}))
+		} else {
+			cbt = coinbaseTx(h, 1000+int64(h), subsidy)
+		}
 		var body []*btcutil.Tx
 		if h == 1 {
 			cb1 = cbt
 		}
-		if h == c.H0 {
+		if h == fundAt {
 			f := wire.NewMsgTx(1)
 			cbh := cb1.TxHash()
 			f.AddTxIn(&wire.TxIn{PreviousOutPoint: wire.OutPoint{Hash: cbh, Index: 0}, SignatureScript: []byte{txscript.OP_1}, Sequence: seqFinal})
 			for i := 0; i < u.NFund; i++ {
-				op := fund(i)
-				var pk []byte
-				if u.WitCoins[op] {
-					ws := witnessScript([]byte{0xf0, byte(i)})
-					c.witScript[op] = ws
-					pk = p2wsh(ws)
-				} else {
-					pk = legacyScript([]byte{0xf0, byte(i)}, 0, 0)
-				}
-				f.AddTxOut(&wire.TxOut{Value: fundValue, PkScript: pk})
+				f.AddTxOut(&wire.TxOut{Value: fundValue, PkScript: c.outScript(fund(i), []byte{0xf0, byte(i)}, 0, TxSpec{})})
 			}
 			// change back so that the fee is small
 			f.AddTxOut(&wire.TxOut{Value: subsidy - int64(u.NFund)*fundValue - 10000, PkScript: legacyScript([]byte{0xfc}, 40, 0)})
 			c.FundTx = btcutil.NewTx(f)
+			c.parent[0] = c.FundTx
 			body = append(body, c.FundTx)
 		}
-		blk := AssembleBlock(c.Params, prev, h, c.T0.Add(time.Duration(h)*time.Second), cbt, body)
+		ts := c.T0.Add(time.Duration(h) * time.Second)
+		bits := c.Params.PowLimitBits
+		if ref != nil {
+			var err error
+			if bits, err = ref.Chain.CalcNextRequiredDifficulty(ts); err != nil {
+				return nil, err
+			}
+		}
+		blk := AssembleBlockBits(c.Params, bits, prev, h, ts, cbt, body)
+		if ref != nil {
+			if err := ref.feedDirect(blk); err != nil {
+				return nil, fmt.Errorf("universe %s: base block %d: %w", u.Name, h, err)
+			}
+		}
 		c.Base = append(c.Base, blk)
 		prev = *blk.Hash()
 		if h == c.H0 {
-			op := baseCB()
-			c.addOp(op, wire.OutPoint{Hash: blk.MsgBlock().Transactions[0].TxHash(), Index: 0}, subsidy)
+			cbx := btcutil.NewTx(blk.MsgBlock().Transactions[0])
+			c.parent[BaseCBSrc] = cbx
+			c.addOp(baseCB(), wire.OutPoint{Hash: *cbx.Hash(), Index: 0}, subsidy)
+			c.BaseBits = bits
 		}
 	}
 	for i := 0; i < u.NFund; i++ {
@@ -218,8 +312,9 @@ func BuildConcrete(u *Universe) (*Concrete, error) {
 		}
 		c.slotH[b-1] = ph + 1
 		sub := blockchain.CalcBlockSubsidy(ph+1, c.Params)
-		cbt := coinbaseTx(ph+1, 2000+int64(b), sub)
+		cbt := coinbaseTxTo(ph+1, 2000+int64(b), sub, c.outScript(cb(b), []byte{0xcb, byte(b)}, 4, TxSpec{}))
 		c.SlotCB = append(c.SlotCB, cbt)
+		c.parent[-b] = btcutil.NewTx(cbt)
 		c.addOp(cb(b), wire.OutPoint{Hash: cbt.TxHash(), Index: 0}, sub)
 	}
 	// transactions
@@ -230,19 +325,26 @@ func BuildConcrete(u *Universe) (*Concrete, error) {
 			return nil, err
 		}
 		c.Txs = append(c.Txs, tx)
+		c.parent[t] = tx
 		c.ByHash[*tx.Hash()] = t
 		m := tx.MsgTx()
-		outTotal := int64(0)
 		for k := 0; k < u.Txs[i].NOut; k++ {
 			c.addOp(out(t, k), wire.OutPoint{Hash: *tx.Hash(), Index: uint32(k)}, m.TxOut[k].Value)
-			outTotal += m.TxOut[k].Value
 		}
 		w := blockchain.GetTransactionWeight(tx)
 		c.Weight = append(c.Weight, int(w))
 		c.VSize = append(c.VSize, int((w+3)/4))
 		c.Size = append(c.Size, m.SerializeSize())
-		// legacy sigops * 4 (none of the scripts is P2SH, witness scripts carry no sigops)
-		c.SigCost = append(c.SigCost, blockchain.CountSigOps(tx)*blockchain.WitnessScaleFactor)
+		// sigop cost with the scripts of the spent outputs at hand (legacy * 4, P2SH, witness)
+		view := blockchain.NewUtxoViewpoint()
+		for _, in := range u.Txs[i].Ins {
+			view.AddTxOuts(c.parent[in.Src], 1)
+		}
+		cost, err := blockchain.GetSigOpCost(tx, false, view, true, true)
+		if err != nil {
+			return nil, fmt.Errorf("universe %s: tx %d: %w", u.Name, t, err)
+		}
+		c.SigCost = append(c.SigCost, cost)
 		if u.Txs[i].Cls != "insane" && u.Txs[i].VSize != AutoSize && c.VSize[i] != u.Txs[i].VSize {
 			return nil, fmt.Errorf("universe %s: tx %d has vsize %d, wanted %d", u.Name, t, c.VSize[i], u.Txs[i].VSize)
 		}
@@ -257,33 +359,100 @@ func (c *Concrete) addOp(a Outpoint, r wire.OutPoint, v int64) {
 	c.OpValue[a] = v
 }
 
+// outScript chooses the public key script of an output and records how it is spent.
+func (c *Concrete) outScript(op Outpoint, tag []byte, pad int, creator TxSpec) []byte {
+	u := c.U
+	switch {
+	case u.Standard:
+		rs := redeemScript(tag)
+		c.coin[op] = coinInfo{kP2SH, rs}
+		return p2sh(rs)
+	case creator.Cls == "small":
+		c.coin[op] = coinInfo{kind: kBare}
+		return []byte{txscript.OP_1}
+	case u.WitCoins[op]:
+		ws := witnessScript(tag, u.WitSigOps[op])
+		c.coin[op] = coinInfo{kWit, ws}
+		return p2wsh(ws)
+	default:
+		c.coin[op] = coinInfo{kind: kLegacy}
+		if op.Src > 0 && op.Idx == 0 {
+			return legacyScript2(tag, pad, creator.SigOps, creator.SigOpsCS)
+		}
+		return legacyScript(tag, pad, 0)
+	}
+}
+
+// lockTime of a lock class (see Mempool.tla: TxLock).
+func (c *Concrete) lockTime(class string) uint32 {
+	switch class {
+	case "h0":
+		return uint32(c.H0)
+	case "h1":
+		return uint32(c.H0 + 1)
+	case "h2":
+		return uint32(c.H0 + 2)
+	case "tpast":
+		return uint32(c.T0.Add(-24 * time.Hour).Unix())
+	case "tbetween": // after every median time past of the run (T0 + seconds), an hour before the wall clock
+		return uint32(c.T0.Add(time.Hour).Unix())
+	case "tfuture":
+		return uint32(c.T0.Add(26 * time.Hour).Unix())
+	}
+	return 0
+}
+
 func (c *Concrete) buildTx(t int) (*btcutil.Tx, error) {
 	u := c.U
 	spec := u.Txs[t-1]
+	var buildErr error
 	mk := func(pad int) *wire.MsgTx {
 		m := wire.NewMsgTx(2)
 		seq := seqFinal
-		if spec.Rbf {
+		switch {
+		case spec.Rbf:
 			seq = seqSignalRB
+		case spec.Lock != "" && spec.Lock != "none":
+			seq = seqNonFinal
 		}
+		m.LockTime = c.lockTime(spec.Lock)
 		inTotal := int64(0)
-		addIn := func(in Outpoint) {
+		addIn := func(in Outpoint, first bool) {
 			ti := &wire.TxIn{PreviousOutPoint: c.OpReal[in], Sequence: seq}
-			if ws, ok := c.witScript[in]; ok {
-				ti.Witness = wire.TxWitness{ws}
-			} else if spec.Cls == "badscript" {
-				ti.SignatureScript = []byte{txscript.OP_2}
-			} else {
-				ti.SignatureScript = []byte{txscript.OP_1}
+			ci := c.coin[in]
+			switch ci.kind {
+			case kWit:
+				ti.Witness = wire.TxWitness{ci.script}
+			case kBare:
+				if spec.Cls == "badscript" {
+					buildErr = fmt.Errorf("universe %s: tx %d: a badscript transaction cannot spend the output of a small one", u.Name, t)
+				}
+			case kP2SH:
+				padPush := []byte{0x2a, 0x2a}
+				if first {
+					for i := 0; i < pad; i++ {
+						padPush = append(padPush, 0x2a)
+					}
+				}
+				if spec.Cls == "badscript" {
+					buildErr = fmt.Errorf("universe %s: tx %d: badscript is not available with standard scripts", u.Name, t)
+				}
+				ti.SignatureScript = append(pushData(padPush), pushData(ci.script)...)
+			default:
+				if spec.Cls == "badscript" {
+					ti.SignatureScript = []byte{txscript.OP_2}
+				} else {
+					ti.SignatureScript = []byte{txscript.OP_1}
+				}
 			}
 			m.AddTxIn(ti)
 			inTotal += c.OpValue[in]
 		}
-		for _, in := range spec.Ins {
-			addIn(in)
+		for i, in := range spec.Ins {
+			addIn(in, i == 0)
 		}
 		if spec.Cls == "insane" {
-			addIn(spec.Ins[0]) // duplicate input
+			addIn(spec.Ins[0], false) // duplicate input
 			inTotal -= c.OpValue[spec.Ins[0]]
 		}
 		outTotal := inTotal - spec.Fee
@@ -296,41 +465,38 @@ func (c *Concrete) buildTx(t int) (*btcutil.Tx, error) {
 			if k == 0 {
 				v = outTotal - each*int64(spec.NOut-1)
 			}
-			op := out(t, k)
-			var pk []byte
-			if u.WitCoins[op] {
-				ws := witnessScript([]byte{byte(t), byte(k)})
-				c.witScript[op] = ws
-				pk = p2wsh(ws)
-			} else if k == 0 {
-				pk = legacyScript([]byte{byte(t), byte(t >> 8)}, pad, spec.SigOps)
-			} else {
-				pk = legacyScript([]byte{byte(t), byte(t >> 8), byte(k)}, 0, 0)
+			tag := []byte{byte(t), byte(t >> 8)}
+			if k > 0 {
+				tag = append(tag, byte(k))
 			}
-			m.AddTxOut(&wire.TxOut{Value: v, PkScript: pk})
+			opad := pad
+			if u.Standard || k > 0 {
+				opad = 0
+			}
+			m.AddTxOut(&wire.TxOut{Value: v, PkScript: c.outScript(out(t, k), tag, opad, spec)})
 		}
 		return m
 	}
+	vsize := func(m *wire.MsgTx) int { return int((blockchain.GetTransactionWeight(btcutil.NewTx(m)) + 3) / 4) }
 	m := mk(0)
-	if spec.Cls != "insane" && spec.VSize != AutoSize {
-		vs := int((blockchain.GetTransactionWeight(btcutil.NewTx(m)) + 3) / 4)
+	if spec.Cls != "insane" && spec.Cls != "small" && spec.VSize != AutoSize {
+		vs := vsize(m)
 		if vs > spec.VSize {
 			return nil, fmt.Errorf("universe %s: tx %d cannot be smaller than %d vbytes (wanted %d)", u.Name, t, vs, spec.VSize)
 		}
 		pad := spec.VSize - vs
 		m = mk(pad)
-		// the script length prefix may grow by two bytes when the script passes 252 bytes
-		for try := 0; try < 4; try++ {
-			vs = int((blockchain.GetTransactionWeight(btcutil.NewTx(m)) + 3) / 4)
-			if vs == spec.VSize {
-				break
-			}
-			pad -= vs - spec.VSize
+		// a script length prefix may grow when the script passes 75 / 252 bytes
+		for try := 0; try < 6 && vsize(m) != spec.VSize; try++ {
+			pad -= vsize(m) - spec.VSize
 			m = mk(pad)
 		}
 	}
-	if m.SerializeSizeStripped() < 65 {
-		return nil, fmt.Errorf("universe %s: tx %d smaller than 65 bytes", u.Name, t)
+	if buildErr != nil {
+		return nil, buildErr
+	}
+	if small := m.SerializeSizeStripped() < 65; small != (spec.Cls == "small") {
+		return nil, fmt.Errorf("universe %s: tx %d has %d bytes, class %q", u.Name, t, m.SerializeSizeStripped(), spec.Cls)
 	}
 	for _, o := range m.TxOut {
 		if o.Value <= 0 || o.Value > math.MaxInt64/2 {
@@ -341,11 +507,11 @@ func (c *Concrete) buildTx(t int) (*btcutil.Tx, error) {
 }
 
 // SlotBlock builds the block of slot b with the given body on top of prev.
-func (c *Concrete) SlotBlock(b int, prev chainhash.Hash, body []int) *btcutil.Block {
+func (c *Concrete) SlotBlock(b int, prev chainhash.Hash, bits uint32, body []int) *btcutil.Block {
 	var txs []*btcutil.Tx
 	for _, t := range body {
 		txs = append(txs, c.Txs[t-1])
 	}
 	h := c.SlotHeight(b)
-	return AssembleBlock(c.Params, prev, h, c.T0.Add(time.Duration(h)*time.Second), c.SlotCB[b-1], txs)
+	return AssembleBlockBits(c.Params, bits, prev, h, c.T0.Add(time.Duration(h)*time.Second), c.SlotCB[b-1], txs)
 }
